@@ -26,7 +26,7 @@ SAFE_OTHERS = [
     "pub static NAME: &str = \"pub fn not_a_fn() {}\";",
     "pub type FnAlias = fn(u8) -> u8;",
     "pub enum E { A, B(u8) }",
-    "extern \"C\" { pub fn ext_decl(x: u8) -> u8; }",
+    "unsafe extern \"C\" { pub fn ext_decl(x: u8) -> u8; }",   # (`unsafe extern`: required in edition 2024, accepted in 2021)
     "async fn private_async() {}",
     "pub use self::nested_b::deep as renamed; pub mod nested_b { pub fn deep() {} }",
     "#[allow(dead_code)] const fn private_const() -> i32 { 7 }",
